@@ -527,9 +527,11 @@ def ite_paths(interp, thunk, hyps, bound=None):
         sk = []
         if bound is not None:
             for w in local:
-                if str(w) in used:
-                    f = z3.Function('sk!' + str(w), bound.sort(), w.sort())
-                    sk.append((w, f(bound)))
+                # every constant created while evaluating the generic element (a witness with defining facts, or an unconstrained
+                # result such as an opaque string operation) is a function of the bound variable -- never one value shared by all
+                f = z3.Function('sk!' + str(w), bound.sort(), w.sort())
+                sk.append((w, f(bound)))
+                used.add(str(w))
         subst = (lambda t, sk=sk: z3.substitute(t, *sk)) if sk else (lambda t: t)
         guards, assumed = [], []
         for c, t in texts:
